@@ -82,12 +82,23 @@ def sym_addr(name, W):
     return v, SInt.unsigned(v)
 
 
+class ImageOutOfRange(ValueError):
+    """the code under test returned an integer that is not a W-bit address (recorded like an exception of the code)"""
+
+
 def out_bv(r, W):
     """result of anonymize/deanonymize as a W-bit vector (int or SInt)"""
     if isinstance(r, int):
         if not 0 <= r < (1 << W):
-            raise core.EngineError("result out of range: %r" % r)
+            raise ImageOutOfRange("result out of range: %r" % r)
         return z3.BitVecVal(r, W)
+    if r.lo < 0 or r.hi >= (1 << W):
+        if core.EX is None or not core.EX.running:
+            # outside an exploration (post-processing of an explored path whose condition already says "in range")
+            return z3.Extract(W - 1, 0, r.ext(max(r.w, W + 1)))
+        if core.EX.branch(z3.Or(r._cmp_expr(0, "lt"), r._cmp_expr(1 << W, "ge"))):
+            raise ImageOutOfRange("result outside the %d-bit address space" % W)
+        r = SInt(r.e, max(r.lo, 0), min(r.hi, (1 << W) - 1), r.w)
     return r.ubv(W)
 
 
@@ -112,7 +123,9 @@ class Summary:
 
         def h(_):
             an = make(cfg, family)
-            return getattr(an, method)(arg)
+            r = getattr(an, method)(arg)
+            out_bv(r, W)      # an image outside the address space is recorded as a failing path
+            return r
         paths = ex.explore(h)
         self.cases = []
         self.validated = 0
@@ -130,7 +143,8 @@ class Summary:
                 def run(P):
                     an = make(cfg, family, P)
                     try:
-                        return getattr(an, method)(a)
+                        r_ = getattr(an, method)(a)
+                        return r_ if 0 <= r_ < (1 << W) else "EXC:ImageOutOfRange"
                     except Exception as e:
                         return "EXC:%s" % type(e).__name__
                 got, _ = md5_replay_table(p.model, run)
